@@ -519,6 +519,9 @@ class Walker:
                 return Int(o["int"])
             if "str" in o:
                 return ("str", o["str"])
+            if "pstr" in o:
+                # promoted `&"literal"`: a reference to a &str holding the literal
+                return ("refval", ("str", o["pstr"]))
             if o.get("zst"):
                 return ("zst", o["ty"])
             if "uneval" in o:
@@ -797,6 +800,11 @@ class Walker:
         # 3. inline crate-local bodies
         if callee["local"]:
             body2 = self.db.bodies.get(path)
+            if body2 is not None and body2.kind == "Closure" and callee["declared"].split("::")[-1] in ("call", "call_mut", "call_once") and len(args) == 2:
+                # `Fn::call(&closure, (a, b))` resolved to the closure body, whose MIR takes the arguments untupled
+                act = self._apply_fn(st, fr, args[0], list(args[1][1]) if isinstance(args[1], tuple) and args[1][0] == "tuple" else None, None, args[1])
+                if act is not None and act[0] == "inline":
+                    return self._inline(st, fr, act[1], act[2], dest, target, site, post=act[3])
             if body2 is not None and not self.no_inline(path):
                 if fr.depth < self.max_depth:
                     return self._inline(st, fr, body2, args, dest, target, site)
